@@ -36,10 +36,29 @@ func (o *Obligation) script() string {
 	}
 	var asserts []*Term
 	if o.Cover {
-		asserts = hyps
+		// satisfiability of the preconditions: engine-internal string axioms
+		// (consistent by construction, quantified) are left out
+		for _, h := range hyps {
+			if h.Op != "forall" {
+				asserts = append(asserts, h)
+			}
+		}
 	} else {
 		ng := b.Not(o.Goal)
-		asserts = append(sliceHyps(hyps, ng), ng)
+		sl := sliceHyps(hyps, ng)
+		asserts = append(sl, ng)
+		if len(sl) < len(hyps) {
+			// keep the unsliced query as a fallback (an infeasible path may
+			// only be refutable with hypotheses unrelated to the goal)
+			full := append(append([]*Term{}, hyps...), ng)
+			var ins []*Term
+			for _, nt := range o.inputs {
+				if nt.T.Sort.Kind == SBool || nt.T.Sort.Kind == SBV || nt.T.Sort.Kind == SInt {
+					ins = append(ins, nt.T)
+				}
+			}
+			o.smtFull, _ = b.Script(full, ins, nil)
+		}
 	}
 	var ins []*Term
 	for _, nt := range o.inputs {
@@ -204,6 +223,23 @@ func solve(o *Obligation, cfg *SolverCfg, idx int) {
 	if o.done {
 		return
 	}
+	solve1(o, cfg, idx)
+	if !o.Cover && o.Status != "unsat" && o.smtFull != "" {
+		prevStatus, prevModel, prevSolver, prevOut, prevKeep := o.Status, o.Model, o.Solver, o.Output, o.smtKeep
+		o.smt = o.smtFull
+		o.smtFull = ""
+		o.logic = ""
+		o.Model = nil
+		solve1(o, cfg, idx)
+		if o.Status != "unsat" && o.Status != "sat" && prevStatus == "sat" {
+			// keep the candidate model of the sliced query (only a replay can confirm it)
+			o.Status, o.Model, o.Solver, o.Output, o.smtKeep = prevStatus, prevModel, prevSolver+"(sliced)", prevOut, prevKeep
+		}
+	}
+	o.smtFull = ""
+}
+
+func solve1(o *Obligation, cfg *SolverCfg, idx int) {
 	script := o.smt
 	o.smt = ""
 	defer func() {
